@@ -68,6 +68,8 @@ TEMPLATES = {
                   '<case value="2"/><case default="true"><field name="y" type="string"/></case></switch>', False),
     "switchenum": ('<field name="k{i}" type="E"/><switch field="k{i}"><case value="A"><field name="x" type="char"/></case>'
                    '<case value="None"><field name="z" type="S"/></case><case value="9"><field name="y" type="three"/></case></switch>', False),
+    "switchdef0": ('<field name="k{i}" type="char"/><switch field="k{i}"><case value="1"><field name="x" type="short"/></case>'
+                   '<case value="3"/><case default="true"/></switch>', False),
     # explicitly spelled defaults (C02: must not change the format)
     "char_x": ('<field name="f{i}" type="char" optional="false" padded="false"/>', False),
     "str4_x": ('<field name="f{i}" type="string" length="4" padded="False" optional="false"/>', False),
